@@ -170,6 +170,9 @@ def mutate(r, g, insts, per_class=2):
                 lastk = "KSelect_ref"
         cands.append(("unterminated_after_null" if lastk == "null" else "unterminated_instance", "missing ); after %s" % lastk,
                       with_toks(toks[:-1], noterm=True), iid, True))
+        # the closing parenthesis alone is missing: the record still ends at its semicolon, the neighbours are intact
+        if not inst["complex"] and toks[-1] == ")":
+            cands.append(("missing_close_paren", "missing ) before ; after %s" % lastk, with_toks(toks[:-1]), iid, False))
         # the same fault followed by an instance whose text reaches a ')' before any ',' (the reader of the last
         # parameter may then take the following record for the end of this one)
         extra = {"id": max(i["id"] for i in insts) + 1, "complex": False, "parts": [("ITEM", [("str", "x")])], "toks": ["ITEM", "(", "'x'", ")"]}
@@ -186,7 +189,7 @@ def mutate(r, g, insts, per_class=2):
     out, seen = [], {}
     for c in cands:
         key = c[0]
-        if c[0] in ("unterminated_instance", "unterminated_after_null"):
+        if c[0] in ("unterminated_instance", "unterminated_after_null", "missing_close_paren"):
             key = c[0] + " " + c[1]
         if " := " in c[1] and c[0] in ("wrong_kind", "wrong_kind_element", "undeclared_enum_item", "dangling_reference", "select_outside_list"):
             key = c[0] + " " + c[1].split(" (", 1)[1]        # "<kind>) := <bad value>", optional and required apart
